@@ -47,6 +47,10 @@ Fixpoint split_on (sep : ascii) (s : string) : list string :=
            end
   end.
 
+(* ''.join(list) *)
+Fixpoint cat (ls : list string) : string :=
+  match ls with [] => EmptyString | x :: r => x ++ cat r end.
+
 Definition is_comment (line : string) : bool :=
   String.prefix "#" line || String.prefix "--" line || String.prefix "*" line.
 
@@ -57,7 +61,7 @@ Definition comment_of (rest : list string) : string :=
   match rest with
   | [] => ""
   | [c] => strip c
-  | _ => String.concat "" rest
+  | _ => cat rest
   end.
 
 Definition fields (line : string) : option entry :=
@@ -125,11 +129,20 @@ Definition read_text (text : string) : dict := read_lines (readlines (universal 
 Definition dump (d : dict) : list (string * (string * (string * (string * string)))) :=
   map (fun p => (fst p, (e_name (snd p), (e_sval (snd p), (e_comment (snd p), e_raw (snd p)))))) d.
 
-(* geophires_x_client.GeophiresInputParameters(params, from_file_path): the base file's text followed by
-   one line "name, value\n" per override *)
+(* geophires_x_client.GeophiresInputParameters(params, from_file_path): f.writelines(base_file.readlines()) in text
+   mode (so the base arrives with its line endings translated), followed by one line "name, value\n" per override *)
 Definition param_line (p : string * string) : string := fst p ++ ", " ++ snd p ++ String LF EmptyString.
 Definition client_text (base : string) (params : list (string * string)) : string :=
-  base ++ String.concat "" (map param_line params).
+  universal base ++ cat (map param_line params).
+
+(* empty, or ends with a line feed *)
+Fixpoint complete (s : string) : bool :=
+  match s with
+  | EmptyString => true
+  | String c r => if is_empty r then Ascii.eqb c LF else complete r
+  end.
+(* a text whose last line is terminated (by LF, CRLF or CR), or the empty text *)
+Definition terminated (text : string) : bool := complete (universal text).
 
 (* -- vocabulary of the statements -- *)
 Fixpoint allws (s : string) : bool :=
@@ -162,7 +175,7 @@ Definition eol_str (e : eol) : string :=
   | EolCR => String CR EmptyString
   end.
 Definition join_lines (e : eol) (ls : list string) : string :=
-  String.concat "" (map (fun l => l ++ eol_str e) ls).
+  cat (map (fun l => l ++ eol_str e) ls).
 
 (* equality of dumps, for the kernel correspondence *)
 Fixpoint list_eqb {A} (eq : A -> A -> bool) (a b : list A) : bool :=
@@ -179,3 +192,8 @@ Definition dump_eqb (a b : list (string * (string * (string * (string * string))
     && String.eqb (snd (snd (snd (snd x)))) (snd (snd (snd (snd y))))) a b.
 Definition reads_as (text : string) (expected : list (string * (string * (string * (string * string))))) : bool :=
   dump_eqb (dump (read_text text)) expected.
+
+(* an override whose name and value the client can pass through unharmed *)
+Definition clean_param (p : string * string) : bool :=
+  noeol (fst p) && noeol (snd p) && nocomma (fst p) && nocomma (snd p)
+  && String.eqb (strip (fst p)) (fst p) && negb (is_comment (lstrip (fst p))) && negb (is_empty (lstrip (fst p))).
